@@ -22,6 +22,7 @@ func VerifUploadIDConfined() { verifUploadFlow(false) }
 func VerifFindingUploadIDDotDot() { verifUploadFlow(true) }
 
 func verifUploadFlow(finding bool) {
+	verif.Option("panic_is_violation", 1)
 	t := httputil.KseLayout()
 	cas, err := store.NewCAStore(store.CAStoreConfig{
 		UploadDir:     t.Roots[0],
